@@ -7,8 +7,8 @@ from ..gen import G, I
 
 ID = "C12"
 LEVEL = "exploration"
-RULE = ("cases are programs over optional int / str / list values held in variables, parameters, function results and "
-        "list elements, built from a random sequence of uses of `== nil`, `get`, `(x) or y` (fallback = logging call, so "
+RULE = ("cases are programs over optional int / str / list / object values held in variables, parameters, function results, "
+        "built-in results (wrapped present values), list elements and class fields, built from a random sequence of uses of `== nil`, `get`, `(x) or y` (fallback = logging call, so "
         "laziness is observable), `a ?= e` in statement / if / while position, at module level, in nested blocks and in "
         "functions, each use drawn with a nil or a present operand; oracle = reference interpreter (stdout exactly; for "
         "`get nil`: non-zero exit, message `unwrap of nil` with file:line:col inside that get expression). Non-trivial = the "
